@@ -1,11 +1,11 @@
 """C07: descriptor ownership (reactor model + trace acceptance)."""
 import tops
 from reactor import components
-from engine import EngineC, EngineHandover
+from engine import EngineC, EngineHandover, EngineHammer
 
 
 def main(tier, replay):
-    return tops.run("C07", components(['stream', 'fault']) + [EngineC(), EngineHandover()], tier,
+    return tops.run("C07", components(['stream', 'fault']) + [EngineC(), EngineHandover(), EngineHammer()], tier,
                     level_text="Props/C07.lean: every system call of the model names a descriptor the ledger holds open; closed exactly once. The model is a trace acceptor over abstract FIFO buffers (justified by the C09/C10/C11 refinements); it is tied to the code by trace acceptance: one REAL event loop on real sockets runs step by step, every system call goes through a logging / fault-injecting shim, and every round's log must be accepted by the model (kernel results and handler actions are inputs, system-call requests, callbacks and method results are predictions). Independent oracles check the property end to end on the same runs",
                     assumptions=["Linux socket and epoll semantics (real kernel in the runs, inputs of the model)",
                                  "instrumentation (selector renaming to the shim, entry logging) does not change behaviour",
